@@ -41,6 +41,15 @@ def run(ctx):
             ctx.saw(f_)
             rows = sorted((v, at) for _, v, at in M.return_table(prog, f_))
             ctx.ob("R2", nm + ":fails-only-when-the-pop-or-the-conversion-fails", rows == sorted(want), "%s:%d" % (f_.file, f_.line), "returns %s" % [(v[:60], [a[:50] for a in at][-1:]) for v, at in rows], f_)
+    w_ = prog.fn("essential_vm::state_read::write_values_to_memory")
+    if ctx.anchor("R2", "fn write_values_to_memory", w_):
+        rows = [(v, at[-1] if at else "") for _, v, at in M.return_table(prog, w_)]
+        errs = [l for v, l in rows if v == "<propagate error>"]
+        kinds = sorted(re.sub(r"^err\((?:essential_vm::|int::|i64::)?([\w:]+)\(.*$", r"\1", l) for l in errs)
+        want_k = sorted(["try_from", "checked_mul", "try_from", "checked_add", "try_from", "memory::Memory::store_range", "memory::Memory::store_range"])
+        oks = [(v, l) for v, l in rows if v.startswith("Result::Ok{")]
+        ctx.ob("R2", "write_values_to_memory:fails-only-where-a-conversion,the-address-sum-or-a-store-fails", len(rows) == 8 and kinds == want_k and len(oks) == 1 and oks[0][1].startswith("is:None("),
+               "%s:%d" % (w_.file, w_.line), "failing returns propagate from %s; other returns %s" % (kinds, [v[:40] for v, _ in rows if v != "<propagate error>"]), w_)
     f_ = prog.fn("essential_vm::state_read::pop_key_range_args")
     if f_ is not None:
         rows = [(v, at) for _, v, at in M.return_table(prog, f_)]
